@@ -500,6 +500,67 @@ Section NewExpr.
       name, else the first spread (in order) whose instance exports it, else it is left to be an
       implicit import when [...] is present -- and none is missing.  Every table entry is an argument
       of the new instantiation in the resulting graph ([get_args]). *)
+  Lemma new_expr_binding_at evalf pkg args st id s0 pd t1 req s1 t2 s2 s3 inst st' :
+    resolve_package u (pn_name pkg) (pn_version pkg) (off (pn_span pkg)) st = inl (id, s0) ->
+    pkg_desc u (rs_g s0) id = Some pd ->
+    pass1 u evalf (text_items u (pd_imports pd)) args [] true s0 = inl ((t1, req), s1) ->
+    pass2 u args (map fst (text_items u (pd_imports pd))) t1 s1 = inl (t2, s2) ->
+    instantiate u (rs_g s2) id = (rs_g s3, ONode inst) ->
+    set_args u inst t2 s3 = inl (tt, st') ->
+    (req = true -> find (fun p => negb (has_key t2 (fst p))) (text_items u (pd_imports pd)) = None) ->
+    args_framed evalf args -> nofree (rs_g st) ->
+    exists recs,
+      pkg_desc u (rs_g st') id = Some pd /\
+      (forall nm n at_, im_get t2 nm = Some (n, at_) -> In (ru_intern u nm, n) (get_args u (rs_g st') inst)) /\
+      (NoDup (map fst (text_items u (pd_imports pd))) ->
+        NoDup (map fst t1) /\ length t1 = length (filter is_explicit_arg args) /\
+        req = negb (existsb is_fill_arg args) /\
+        (forall pre sp post, args = pre ++ AFill sp :: post -> post = []) /\
+        map sr_id recs = spread_idents args /\
+        spreads_from u (map fst (text_items u (pd_imports pd))) t1 recs t2 /\
+        (forall i, In i (map fst (text_items u (pd_imports pd))) ->
+           match bind_import t1 (map to_src recs) (negb req) i with
+           | BExplicit x => im_get t2 i = Some x
+           | BSpread sp => exists n, im_get t2 i = Some (n, snd (sp_val sp)) /\ alias_witness u (fst (sp_val sp)) i n
+           | BImplicit => im_get t2 i = None
+           | BMissing => False
+           end)).
+  Proof.
+    intros H0 PD H1 H2 H3 H4 HM HF NF.
+    destruct (mframe_resolve_package u _ _ _ _ _ _ H0 NF) as [G0 _].
+    destruct (mframe_pass1 u evalf _ args HF _ _ _ _ _ H1 (gf_free _ _ G0)) as [G1 _].
+    destruct (mframe_pass2 u _ args _ _ _ _ H2 (gf_free _ _ G1)) as [G2 _].
+    assert (G3 : gframe (rs_g s2) (rs_g s3)) by (eapply instantiate_gframe; [exact (gf_free _ _ G2)|exact H3]).
+    destruct (mframe_set_args u inst t2 _ _ _ H4 (gf_free _ _ G3)) as [G4 _].
+    assert (PD' : pkg_desc u (rs_g st') id = Some pd).
+    { unfold pkg_desc in *. destruct (get_pkg (rs_g s0) id) as [p|] eqn:GP; [|discriminate].
+      assert (GF : gframe (rs_g s0) (rs_g st')).
+      { eapply gframe_trans; [exact G1|]. eapply gframe_trans; [exact G2|]. eapply gframe_trans; [exact G3|exact G4]. }
+      now rewrite (gf_pkgs _ _ GF _ _ GP). }
+    destruct (pass1_inl u evalf _ args _ _ _ _ _ _ H1 (NoDup_nil _)) as (ND1 & (ex & E1 & L1) & Rq & FL).
+    cbn in E1. subst ex.
+    assert (exists recs, map sr_id recs = spread_idents args /\
+              (NoDup (map fst (text_items u (pd_imports pd))) ->
+               spreads_from u (map fst (text_items u (pd_imports pd))) t1 recs t2)) as (recs & Ids & SFh).
+    { destruct (classic_nodup (map fst (text_items u (pd_imports pd)))) as [ND|NND].
+      - destruct (pass2_inl u _ args _ _ _ _ H2 (gf_free _ _ G1) ND) as (recs & Ids & _ & SF & _). exists recs. auto.
+      - exists (map (fun id => {| sr_id := id; sr_item := 0; sr_exports := []; sr_adds := [] |}) (spread_idents args)).
+        split; [rewrite map_map; cbn; apply map_id|]. intros ND. contradiction. }
+    exists recs. split; [exact PD'|].
+    split.
+    { intros nm n at_ L. apply im_get_In in L. apply has_arg_get_args.
+      destruct (set_args_all u inst t2 _ _ H4) as [_ All]. eapply All; eauto. }
+    intros ND. specialize (SFh ND).
+    split; [exact ND1|]. split; [exact L1|]. split; [now rewrite Rq|]. split; [exact FL|]. split; [exact Ids|]. split; [exact SFh|].
+    intros i Hi. pose proof (spreads_from_binding u _ (negb req) _ _ _ SFh ND i Hi) as B.
+    destruct (bind_import t1 (map to_src recs) (negb req) i) eqn:BI; auto.
+    (* missing: impossible after a successful [new] *)
+    unfold bind_import in BI. destruct (im_get t1 i); [discriminate|]. destruct (first_spread _ i); [discriminate|].
+    destruct req; [|discriminate]. specialize (HM eq_refl).
+    apply in_map_iff in Hi as (p & <- & Hp). pose proof (find_none _ _ HM p Hp) as X. cbn in X.
+    apply negb_false_iff in X. unfold has_key in X. now rewrite B in X.
+  Qed.
+
   Theorem new_expr_binding evalf pkg args st inst st' :
     new_expr u self_name evalf pkg args st = inl (inst, st') ->
     args_framed evalf args -> nofree (rs_g st) ->
@@ -521,39 +582,8 @@ Section NewExpr.
            end)).
   Proof.
     intros H HF NF. apply new_expr_inl in H as (_ & id & s0 & pd & t1 & req & s1 & t2 & s2 & s3 & H0 & PD & H1 & H2 & H3 & Sc3 & H4 & HM).
-    destruct (mframe_resolve_package u _ _ _ _ _ _ H0 NF) as [G0 _].
-    destruct (mframe_pass1 u evalf _ args HF _ _ _ _ _ H1 (gf_free _ _ G0)) as [G1 _].
-    destruct (mframe_pass2 u _ args _ _ _ _ H2 (gf_free _ _ G1)) as [G2 _].
-    assert (G3 : gframe (rs_g s2) (rs_g s3)) by (eapply instantiate_gframe; [exact (gf_free _ _ G2)|exact H3]).
-    destruct (mframe_set_args u inst t2 _ _ _ H4 (gf_free _ _ G3)) as [G4 _].
-    exists id, pd, t1, req.
-    assert (PD' : pkg_desc u (rs_g st') id = Some pd).
-    { unfold pkg_desc in *. destruct (get_pkg (rs_g s0) id) as [p|] eqn:GP; [|discriminate].
-      assert (GF : gframe (rs_g s0) (rs_g st')).
-      { eapply gframe_trans; [exact G1|]. eapply gframe_trans; [exact G2|]. eapply gframe_trans; [exact G3|exact G4]. }
-      now rewrite (gf_pkgs _ _ GF _ _ GP). }
-    destruct (pass1_inl u evalf _ args _ _ _ _ _ _ H1 (NoDup_nil _)) as (ND1 & (ex & E1 & L1) & Rq & FL).
-    cbn in E1. subst ex.
-    assert (exists recs, map sr_id recs = spread_idents args /\
-              (NoDup (map fst (text_items u (pd_imports pd))) ->
-               spreads_from u (map fst (text_items u (pd_imports pd))) t1 recs t2)) as (recs & Ids & SFh).
-    { destruct (classic_nodup (map fst (text_items u (pd_imports pd)))) as [ND|NND].
-      - destruct (pass2_inl u _ args _ _ _ _ H2 (gf_free _ _ G1) ND) as (recs & Ids & _ & SF & _). exists recs. auto.
-      - exists (map (fun id => {| sr_id := id; sr_item := 0; sr_exports := []; sr_adds := [] |}) (spread_idents args)).
-        split; [rewrite map_map; cbn; apply map_id|]. intros ND. contradiction. }
-    exists recs, t2. split; [exact PD'|].
-    split.
-    { intros nm n at_ L. apply im_get_In in L. apply has_arg_get_args.
-      destruct (set_args_all u inst t2 _ _ H4) as [_ All]. eapply All; eauto. }
-    intros ND. specialize (SFh ND).
-    split; [exact ND1|]. split; [exact L1|]. split; [now rewrite Rq|]. split; [exact FL|]. split; [exact Ids|]. split; [exact SFh|].
-    intros i Hi. pose proof (spreads_from_binding u _ (negb req) _ _ _ SFh ND i Hi) as B.
-    destruct (bind_import t1 (map to_src recs) (negb req) i) eqn:BI; auto.
-    (* missing: impossible after a successful [new] *)
-    unfold bind_import in BI. destruct (im_get t1 i); [discriminate|]. destruct (first_spread _ i); [discriminate|].
-    destruct req; [|discriminate]. specialize (HM eq_refl).
-    apply in_map_iff in Hi as (p & <- & Hp). pose proof (find_none _ _ HM p Hp) as X. cbn in X.
-    apply negb_false_iff in X. unfold has_key in X. now rewrite B in X.
+    destruct (new_expr_binding_at evalf pkg args st id s0 pd t1 req s1 t2 s2 s3 inst st' H0 PD H1 H2 H3 H4 HM HF NF) as (recs & X).
+    exists id, pd, t1, req, recs, t2. exact X.
   Qed.
 
   (** 6c. A missing argument: once the arguments are passed, [new] is rejected with
